@@ -1403,10 +1403,8 @@ Proof.
   assert (Hf : In f (names_of out)).
   { apply (in_map snd) in Hin. cbn [snd] in Hin. rewrite M in Hin. apply in_map_iff in Hin. destruct Hin as [f0 [E H0]]. inversion E; subst. exact H0. }
   assert (X : is_expansion (r_fc c) (static ++ wild) f).
-  { apply (run_expansion (r_fc c) static wild _ _ _ _ Hr) with (s := gen_init c tfiles) (out := out) (s' := st); try exact R; try exact Hf.
-    - cbn. exact S.
-    - split; [reflexivity|exact Logic.I].
-    - apply Forall_forall. intros b Hb. apply in_map_iff in Hb. destruct Hb as [a [<- _]]. apply bindings_keep_num. }
+  { apply (run_expansion (r_fc c) static wild (map bindings (askers (eff_level c) doc)) (gen_init c tfiles) out st Hr); [cbn; exact S|split; [reflexivity|exact Logic.I]| |exact R|exact Hf].
+    apply Forall_forall. intros b Hb. apply in_map_iff in Hb. destruct Hb as [a [<- _]]. apply bindings_keep_num. }
   destruct X as [item [v [taken [n1 [n' [I [Hn C]]]]]]]. destruct (G item I) as [nt [-> [WF ND]]].
   destruct (chosen_clean _ _ _ _ _ _ _ _ _ Hw Hcs Hsub WF ND Hn C) as [r [SE [N CL]]].
   exists nt, v, n1, r. repeat split; assumption.
@@ -1422,7 +1420,7 @@ Lemma names_clean_refuted :
   wf_name nt /\ spec_expand c 1 v nt = Some [65; 32; 66; 45; 67] /\ In 32 [65; 32; 66; 45; 67] /\ cs c = Some ([32], [45]).
 Proof.
   cbv zeta. split; [|split; [vm_compute; reflexivity|split; [right; left; reflexivity|reflexivity]]].
-  constructor; [|constructor]. vm_compute. repeat split; repeat constructor.
+  constructor; [|constructor]. cbn. split; [split; [repeat constructor|reflexivity]|split; [discriminate|repeat constructor]].
 Qed.
 
 (* determinism: file names, file set and file contents are functions of (configuration, document, footnote list) *)
@@ -1435,4 +1433,146 @@ Theorem render_deterministic : forall c1 c2 d1 d2 fn1 fn2 tmpl layout shows,
 Proof.
   intros c1 c2 d1 d2 fn1 fn2 tmpl layout shows -> -> ->. split; [reflexivity|]. intros st1 st2 files1 files2 H1 H2.
   rewrite H1 in H2. inversion H2; subst. split; reflexivity.
+Qed.
+
+(* ================================================================================================================== *)
+(* Part 5: tables of contents (C14)                                                                                     *)
+
+Section Toc.
+  Context (fmap : Z -> option str).
+  Notation hasf := (has_file fmap).
+
+  Definition toc_ser (t : toc) : Z := match t with TocEntry s _ => s end.
+  Fixpoint toc_all (t : toc) : list Z := match t with TocEntry s sub => s :: flat_map toc_all sub end.
+
+  (* the table of contents a page prints for itself: SectionUtils.tableofcontents of the node with identity x *)
+  Definition toc_of (doc : node) (nonfiles : bool) (depth : Z) (x : Z) : list toc :=
+    match locate x [] doc with Some (_, _, cs) => tableofcontents fmap nonfiles depth cs | None => [] end.
+
+  (* with toc-depth >= 1 the table of contents of a node lists, at its top level, every direct subsection that has a file *)
+  Lemma toc_lists_children : forall nonfiles depth cs c b bcs,
+    1 <= depth -> In c cs -> c = E b bcs -> is_sub c = true -> hasf b = true ->
+    In (a_ser b) (map toc_ser (tableofcontents fmap nonfiles depth cs)).
+  Proof.
+    intros nonfiles depth cs c b bcs Hd Hc -> Hs Hf. unfold tableofcontents.
+    assert (D : depth <? 1 = false) by (apply Z.ltb_ge; exact Hd). rewrite D.
+    assert (X : existsb (fun c => match c with E b _ => is_sub c && hasf b | T _ => false end) cs = true).
+    { apply existsb_exists. exists (E b bcs). split; [exact Hc|]. rewrite Hs, Hf. reflexivity. }
+    rewrite X. cbn [negb]. apply in_map_iff.
+    exists (TocEntry (a_ser b)
+              (if 1 <? depth
+               then flat_map (fun c => match c with
+                                       | E b0 _ => if is_sub c && (nonfiles || hasf b0) then toc_entry fmap nonfiles depth (1 + 1) c else []
+                                       | T _ => []
+                                       end) bcs
+               else [])).
+    split; [reflexivity|]. apply in_flat_map. exists (E b bcs). split; [exact Hc|]. rewrite Hs, Hf, orb_true_r. cbn [andb toc_entry]. left. reflexivity.
+  Qed.
+
+  (* reachable through tables of contents alone: x's own table lists y at its top level *)
+  Inductive toc_reach (doc : node) (nonfiles : bool) (depth : Z) : Z -> Z -> Prop :=
+  | tr_refl : forall x, toc_reach doc nonfiles depth x x
+  | tr_step : forall x y z, In y (map toc_ser (toc_of doc nonfiles depth x)) -> toc_reach doc nonfiles depth y z ->
+                            toc_reach doc nonfiles depth x z.
+
+  Definition secfiles (n : node) : list attrs := filter hasf (all_sections n).
+  Definition root_attrs (n : node) : option attrs := match n with E a _ => Some a | T _ => None end.
+
+  (* a subsection that contains a file-producing section has a file itself (plasTeX: a section only contains deeper levels, and
+     a node asks for a file iff its level <= split level) *)
+  Fixpoint closed (n : node) : Prop :=
+    match n with
+    | T _ => True
+    | E a cs => (fix go (cs : list node) : Prop :=
+                   match cs with
+                   | [] => True
+                   | c :: r => (is_sub c = true -> secfiles c <> [] -> match c with E b _ => hasf b = true | T _ => True end) /\ closed c /\ go r
+                   end) cs
+    end.
+
+  Lemma closed_kid : forall a cs c, closed (E a cs) -> In c cs ->
+    (is_sub c = true -> secfiles c <> [] -> match c with E b _ => hasf b = true | T _ => True end) /\ closed c.
+  Proof.
+    intros a cs c H Hc. cbn [closed] in H. induction cs as [|c0 cs IH]; [destruct Hc|]. destruct H as [H1 [H2 H3]].
+    destruct Hc as [->|Hc]; [split; assumption|exact (IH H3 Hc)].
+  Qed.
+
+  (* M3 for tables of contents: with toc-depth >= 1, following top-level toc entries of the pages' own tables of contents from a
+     unit reaches every file-producing section below it (link kind used: the entries of obj.tableofcontents printed on obj's page) *)
+  Theorem toc_reaches_all : forall doc nonfiles depth,
+    NoDup (sers doc) -> 1 <= depth ->
+    forall n ch a cs, n = E a cs -> In (ch, a, cs) (elems_ctx [] doc) -> closed n ->
+      forall b, In b (secfiles n) -> toc_reach doc nonfiles depth (a_ser a) (a_ser b).
+  Proof.
+    intros doc nonfiles depth ND Hd. induction n as [w|a0 cs0 IH] using node_ind2; intros ch a cs E0 Hin CL b Hb; [discriminate|].
+    inversion E0; subst a0 cs0; clear E0. unfold secfiles in Hb. apply filter_In in Hb. destruct Hb as [Hb Hf]. cbn [all_sections] in Hb.
+    destruct Hb as [<-|Hb]; [apply tr_refl|]. apply in_flat_map in Hb. destruct Hb as [c [Hc Hb]].
+    destruct (is_sub c) eqn:Hs; [|destruct Hb]. destruct c as [w|a' cs']; [discriminate|].
+    destruct (closed_kid _ _ _ CL Hc) as [K1 K2].
+    assert (NE : secfiles (E a' cs') <> []).
+    { intro Z0. assert (In b (secfiles (E a' cs'))) by (apply filter_In; split; assumption). rewrite Z0 in H. destruct H. }
+    specialize (K1 Hs NE). cbn in K1.
+    apply tr_step with (y := a_ser a').
+    - unfold toc_of. rewrite (locate_elems _ _ _ _ _ ND Hin). exact (toc_lists_children nonfiles depth cs (E a' cs') a' cs' Hd Hc eq_refl Hs K1).
+    - rewrite Forall_forall in IH. apply (IH _ Hc (a :: ch) a' cs' eq_refl); [|exact K2|apply filter_In; split; assumption].
+      apply (elems_trans doc [] ch a cs (E a' cs') _ Hin Hc). cbn [elems_ctx]. left. reflexivity.
+  Qed.
+
+  (* every entry of a table of contents, at any nesting level, is a section-level node below the node -- and has a file unless toc-non-files is on *)
+  Lemma toc_entry_sound : forall nonfiles limit n level s,
+    In s (flat_map toc_all (toc_entry fmap nonfiles limit level n)) ->
+    match n with
+    | T _ => False
+    | E a cs => s = a_ser a \/ exists b, In b (flat_map elements cs) /\ a_ser b = s /\ a_level b < ENDSECTIONS_LEVEL /\ (nonfiles = false -> hasf b = true)
+    end.
+  Proof.
+    intros nonfiles limit. induction n as [w|a cs IH] using node_ind2; intros level s H; [destruct H|].
+    cbn [toc_entry flat_map toc_all] in H. rewrite app_nil_r in H. destruct H as [H|H]; [left; symmetry; exact H|]. right.
+    destruct (level <? limit); [|destruct H]. rewrite flat_map_flat_map in H. apply in_flat_map in H. destruct H as [c [Hc H]].
+    destruct c as [w|b bcs]; [destruct H|]. destruct (is_sub (E b bcs) && (nonfiles || hasf b)) eqn:F; [|destruct H].
+    apply andb_prop in F. destruct F as [F1 F2]. rewrite Forall_forall in IH. specialize (IH _ Hc _ _ H). cbn in IH.
+    destruct IH as [->|[b' [B1 [B2 [B3 B4]]]]].
+    - exists b. split; [apply in_flat_map; exists (E b bcs); split; [exact Hc|cbn; left; reflexivity]|]. split; [reflexivity|].
+      split; [cbn in F1; apply Z.ltb_lt; exact F1|]. intros ->. cbn in F2. exact F2.
+    - exists b'. split; [apply in_flat_map; exists (E b bcs); split; [exact Hc|cbn; right; exact B1]|]. repeat split; assumption.
+  Qed.
+
+  Lemma toc_sound : forall nonfiles depth cs s,
+    In s (flat_map toc_all (tableofcontents fmap nonfiles depth cs)) ->
+    exists b, In b (flat_map elements cs) /\ a_ser b = s /\ a_level b < ENDSECTIONS_LEVEL /\ (nonfiles = false -> hasf b = true).
+  Proof.
+    intros nonfiles depth cs s H. unfold tableofcontents in H. destruct (depth <? 1); [destruct H|].
+    destruct (negb _); [destruct H|]. rewrite flat_map_flat_map in H. apply in_flat_map in H. destruct H as [c [Hc H]].
+    destruct c as [w|b bcs]; [destruct H|]. destruct (is_sub (E b bcs) && (nonfiles || hasf b)) eqn:F; [|destruct H].
+    apply andb_prop in F. destruct F as [F1 F2]. pose proof (toc_entry_sound _ _ _ _ _ H) as S. cbn in S.
+    destruct S as [->|[b' [B1 [B2 [B3 B4]]]]].
+    - exists b. split; [apply in_flat_map; exists (E b bcs); split; [exact Hc|cbn; left; reflexivity]|]. split; [reflexivity|].
+      split; [cbn in F1; apply Z.ltb_lt; exact F1|]. intros ->. cbn in F2. exact F2.
+    - exists b'. split; [apply in_flat_map; exists (E b bcs); split; [exact Hc|cbn; right; exact B1]|]. repeat split; assumption.
+  Qed.
+
+  (* toc targets exist: every entry of the table of contents of every node is a node of the document; with toc-non-files off it has a
+     file of its own and its url is base + that file name *)
+  Theorem toc_targets_exist : forall doc base nonfiles depth ch a cs s,
+    NoDup (sers doc) -> In (ch, a, cs) (elems_ctx [] doc) ->
+    In s (flat_map toc_all (tableofcontents fmap nonfiles depth cs)) ->
+    exists ch' b bcs, In (ch', b, bcs) (elems_ctx [] doc) /\ a_ser b = s /\ a_level b < ENDSECTIONS_LEVEL /\
+      (nonfiles = false -> hasf b = true /\ url fmap doc base s = Some (url_prefix base ++ fname fmap b)).
+  Proof.
+    intros doc base nonfiles depth ch a cs s ND Hin H. destruct (toc_sound _ _ _ _ H) as [b [B1 [B2 [B3 B4]]]].
+    apply in_flat_map in B1. destruct B1 as [c [Hc B1]]. rewrite <- (elems_ctx_elements c (a :: ch)) in B1.
+    apply in_map_iff in B1. destruct B1 as [[[ch' b0] bcs] [E0 B1]]. cbn in E0. subst b0.
+    pose proof (elems_trans doc [] ch a cs c _ Hin Hc B1) as O. exists ch', b, bcs. split; [exact O|]. split; [exact B2|]. split; [exact B3|].
+    intros NF. specialize (B4 NF). split; [exact B4|]. rewrite <- B2. rewrite (url_spec fmap doc base ch' b bcs ND O), B4. reflexivity.
+  Qed.
+End Toc.
+
+Lemma ex_toc :
+  let fm := the_fmap ex_files in
+  toc_of fm ex_doc false 3 1 = [TocEntry 2 []; TocEntry 4 []] /\
+  closed fm (E ex_docenv [T 1; E ex_sec1 [T 2; E ex_fn [T 3]; T 4]; E ex_sec2 [T 5]]) /\
+  map a_ser (secfiles fm (E ex_docenv [T 1; E ex_sec1 [T 2; E ex_fn [T 3]; T 4]; E ex_sec2 [T 5]])) = [1; 2; 4].
+Proof.
+  cbv zeta. split; [vm_compute; reflexivity|]. split; [|vm_compute; reflexivity].
+  cbn. repeat split; intros; try discriminate; try reflexivity.
 Qed.
